@@ -19,6 +19,10 @@ Enumerated cases (each: build the chart on the real library, then run the oracle
      type, and every shape (thorough: pairs) applied to each corpus chart of the three chart decks; for
      these the deck is also SAVED and the workbook is taken from the saved package through an independent
      OPC reader (chart part -> package relationship -> embedded part) and must be the replaced blob;
+  R  ONE chart-data object used twice with a mutation in between: add_chart(cd); then cd.add_category(..)
+     (+ a point per series) | series.add_data_point(..) | cd.add_series(..) through the documented chart-data
+     API; then chart.replace_data(cd) or a second add_chart(cd) — category, XY and bubble data, one chart type
+     per writer family; the oracle runs after EACH use (a workbook frozen at first use is caught here);
   H  a chart whose part says c:date1904=1 (generated deck patched with the harness's own zip writer and
      re-opened), then replace_data with date categories (2016 dates, representable in both date systems).
 
@@ -59,7 +63,7 @@ from mc.props import c07_shapes as S
 LEVEL = "exploration"
 RULE = ("one evaluation = one chart state (after add_chart or after the last replace_data of the case) whose every "
         "series formula reference is resolved in the embedded workbook and compared with its cache; cases are the "
-        "families A-H of the module docstring, each a full product within the stated bound. Non-trivial = the "
+        "families A-H and R of the module docstring, each a full product within the stated bound. Non-trivial = the "
         "evaluation compared at least one cached point with a workbook cell; counted per distinct case.")
 ASSUMPTIONS = [
     "bounded as C07 (c07_shapes.creation_shapes / history_shapes) plus series counts 25-27 (quick) and 701-703 "
@@ -318,6 +322,97 @@ def exec_case(case, emit, part=None, slides=None):
     return info
 
 
+# ---- family R: one chart-data object used twice with a mutation in between ---------------------------------------
+
+REUSE_MUTS = {"cat": ["add_category", "add_data_point", "add_series"],
+              "xy": ["add_data_point", "add_series"], "bubble": ["add_data_point", "add_series"]}
+REUSE_SECOND = ["replace_data", "add_chart"]
+
+
+def _reuse_base(kind):
+    if kind == "cat":
+        return {"k": "cat", "lab": "str", "n": 3, "ns": 2, "vk": "int"}
+    return {"k": kind, "lens": [2, 3], "vk": "int"}
+
+
+def _reuse_mutate(cd, kind, mut):
+    """Mutate the live chart-data object through its documented API."""
+    if kind == "cat":
+        if mut == "add_category":
+            cd.add_category("Added later")
+            for ser in cd:
+                ser.add_data_point(77.5)
+        elif mut == "add_data_point":
+            cd[len(cd) - 1].add_data_point(88.25)
+        else:
+            cd.add_series("Added series", [5, 6.5, 7])
+        return
+    pt = (9.5, 8.5) if kind == "xy" else (9.5, 8.5, 3.25)
+    if mut == "add_data_point":
+        cd[0].add_data_point(*pt)
+    else:
+        ser = cd.add_series("Added series")
+        ser.add_data_point(*pt)
+        ser.add_data_point(*[v + 1 for v in pt])
+
+
+def _check_chart(chart, kind, label_kind):
+    root = etree.fromstring(chart.part.blob, _bare)
+    xpart = chart.part.chart_workbook.xlsx_part
+    if xpart is None:
+        return [("workbook-part|missing", "chart part has no embedded workbook")], {"pts": 0, "refs": 0, "hyperlinks": 0, "formula_cells": 0}
+    try:
+        wb = xlsx_ref.read(xpart.blob)
+    except xlsx_ref.XlsxError as e:
+        return [("workbook-part|unreadable", str(e))], {"pts": 0, "refs": 0, "hyperlinks": 0, "formula_cells": 0}
+    return check_refs(root, wb, kind, label_kind)
+
+
+def exec_reuse(case, emit, part=None):
+    """add_chart(cd); mutate cd; replace_data(cd) or a second add_chart(cd); oracle after EACH use."""
+    from pptx import Presentation
+    from pptx.enum.chart import XL_CHART_TYPE
+    tname, mut, second = case["type"], case["mut"], case["second"]
+    kind = S.kind_of(tname)
+    lk = "str" if kind == "cat" else None
+    info = {"raised": False, "pts": 0, "uses": 0}
+    prs = Presentation()
+    slide = prs.slides.add_slide(prs.slide_layouts[6])
+    base = _reuse_base(kind)
+    cd = S.build(base)
+    head = "%s: cd = %s" % (tname, c07._spec_brief(base))
+    try:
+        chart = slide.shapes.add_chart(getattr(XL_CHART_TYPE, tname), 0, 0, 3000000, 2000000, cd).chart
+        viols, stats = _check_chart(chart, kind, lk)
+        info["uses"] += 1
+        info["pts"] += stats["pts"]
+        for tail, what in viols:
+            emit("C08|" + tail, "%s; add_chart(cd): %s" % (head, what))
+        _reuse_mutate(cd, kind, mut)
+        if second == "replace_data":
+            chart.replace_data(cd)
+            step = "add_chart(cd); cd.%s(...); chart.replace_data(cd)" % mut
+        else:
+            chart = slide.shapes.add_chart(getattr(XL_CHART_TYPE, tname), 0, 0, 3000000, 2000000, cd).chart
+            step = "add_chart(cd); cd.%s(...); second add_chart(cd)" % mut
+    except Exception as e:  # noqa: BLE001  -- raising operations are C07's business
+        info["raised"] = True
+        if part is not None:
+            part.outcome("build", "raised:" + type(e).__name__)
+        return info
+    viols, stats = _check_chart(chart, kind, lk)
+    info["uses"] += 1
+    info["pts"] += stats["pts"]
+    for tail, what in viols:
+        emit("C08|%s|reused-chart-data" % tail, "%s; %s: %s" % (head, step, what))
+    if part is not None:
+        part.outcome("build", "ok")
+        part.count("refs_resolved", stats["refs"])
+        part.count("points_compared", info["pts"])
+        part.outcome("verdict", "agree" if not viols else "mismatch")
+    return info
+
+
 def _desc(case, tname):
     head = tname if case["src"] != "corpus" else "%s slide %d shape %d (%s)" % (case["deck"], case["slide"], case["shape"], tname)
     if case["src"] == "gen1904":
@@ -386,6 +481,16 @@ def _work(part, chunk):
 
         def emit(sig, what, case=case):
             part.violation(sig, what, {"case": case, "sig": sig})
+        if case["src"] == "reuse":
+            info = exec_reuse(case, emit, part=part)
+            part.count("cases")
+            part.count("cases_by_family_" + case["fam"])
+            part.count("evaluations", info["uses"])
+            if info["raised"]:
+                part.count("cases_op_raised")
+            elif info["pts"] > 0:
+                part.count("nontrivial_count")
+            continue
         info = exec_case(case, emit, part=part, slides=slides)
         part.count("cases")
         part.count("cases_by_family_" + case["fam"])
@@ -397,6 +502,7 @@ def _work(part, chunk):
             part.count("nontrivial_count")
         if ci % 1499 == 0:
             part.sample({"case": _desc(case, case.get("type", "corpus")), "points_compared": info["pts"]})
+
 
 
 def build_cases(thorough, types, corpus):
@@ -483,7 +589,13 @@ def build_cases(thorough, types, corpus):
             add("H", {"src": "gen1904", "type": t, "ops": [{"k": "cat", "lab": "str", "n": 2, "ns": 1, "vk": "int"},
                                                             {"k": "cat", "lab": "datetime", "n": n, "ns": 2, "vk": "float"}]})
     expected_h = 2 * len(cat_fam_types)
-    expected = {"A": expected_a, "B": expected_b, "D": expected_d, "E": expected_e, "F": expected_f, "G": expected_g, "H": expected_h}
+    # R
+    for t in fam_types.values():
+        for mut in REUSE_MUTS[S.kind_of(t)]:
+            for second in REUSE_SECOND:
+                add("R", {"src": "reuse", "type": t, "mut": mut, "second": second})
+    expected_r = 2 * (3 * len(cat_fam_types) + 2 * (len(fam_types) - len(cat_fam_types)))
+    expected = {"R": expected_r, "A": expected_a, "B": expected_b, "D": expected_d, "E": expected_e, "F": expected_f, "G": expected_g, "H": expected_h}
     if sizes != expected:
         raise HarnessError("case generator sizes %r != closed forms %r" % (sizes, expected))
     return cases, expected
@@ -545,5 +657,8 @@ def replay(data):
     def emit(sig, what):
         if sig == data["sig"]:
             found.append(what)
-    exec_case(case, emit)
+    if case["src"] == "reuse":
+        exec_reuse(case, emit)
+    else:
+        exec_case(case, emit)
     return found[0] if found else None
